@@ -460,6 +460,29 @@ def judge_bigshots(chk, rec, n_shots, seed, word=None):
     return J
 
 
+class Collector:
+    """Minimal stand-in for check.Check inside a worker process: collects reports, writes nothing."""
+
+    def __init__(self):
+        self.violations, self.cov, self.inconclusive, self.traces = [], {"parts": {}}, 0, 0
+
+    def match_known(self, key):
+        return None
+
+    def violation(self, key, detail, case):
+        self.violations.append((key, detail, case))
+
+    def add_traces(self, n, part=None):
+        self.traces += n
+
+
+def _bigshots_worker(args):
+    rec, n_shots, seed = args
+    col = Collector()
+    judge_bigshots(col, rec, n_shots, seed)
+    return col.violations, col.traces
+
+
 def judge_state(chk, rec, words=None, tag="plain"):
     """ST record: every Pauli word as a single-term operator through the three exact routes."""
     from tangelo.toolboxes.operators import QubitOperator
@@ -720,6 +743,15 @@ def run(chk):
     # canonical order (TLC's print order depends on worker scheduling): seeded sampling must not depend on it
     sts.sort(key=lambda r: (r["M"], r["n"], r["src"], r["nmeas"], len(r["gates"]), json.dumps(r["psi"])))
     timing["tlc_S_and_generation_s"] = round(time.time() - t0, 1)
+    # very large shot counts around the 10**7 slice boundary of the sampler: ~5-10 s each, run in worker processes
+    # next to the V part and the behaviour replay (inputs and seeds are fixed here, results are collected below)
+    import concurrent.futures as cf
+    import multiprocessing as mp
+    big = [10 ** 7, 2 * 10 ** 7] if quick else [10 ** 7 - 1, 10 ** 7, 10 ** 7 + 1, 2 * 10 ** 7, 12 * 10 ** 6]
+    cands = [r for r in sts if r["M"] == 8 and r["n"] <= 2 and r["nmeas"] == 0 and r["src"] == "generic" and r["gates"]]
+    big_jobs = [(rng.choice(cands), nb, rng.randrange(2 ** 31)) for nb in big]
+    big_pool = cf.ProcessPoolExecutor(max_workers=2 if quick else 3, mp_context=mp.get_context("fork"))
+    big_futs = [big_pool.submit(_bigshots_worker, j) for j in big_jobs]
 
     # ---------------- V ---------------------------------------------------------------------------------
     t1 = time.time()
@@ -750,11 +782,18 @@ def run(chk):
         judge_shots(chk, rec, 500, rng.randrange(2 ** 31), variants=(rng.choice(["plain", "init"]),))
     timing["replay_shots_s"] = round(time.time() - t1, 1)
     t1 = time.time()
-    # very large shot counts around the 10**7 slice boundary of the sampler (a few seconds each)
-    big = [10 ** 7, 2 * 10 ** 7] if quick else [10 ** 7 - 1, 10 ** 7, 10 ** 7 + 1, 2 * 10 ** 7, 12 * 10 ** 6]
-    cands = [r for r in sts if r["M"] == 8 and r["n"] <= 2 and r["nmeas"] == 0 and r["src"] == "generic" and r["gates"]]
-    for nb in big:
-        judge_bigshots(chk, rng.choice(cands), nb, rng.randrange(2 ** 31))
+    # collect the large-shot cases started above
+    for fut in big_futs:
+        viol, ntr = fut.result()
+        chk.add_traces(ntr, "BIGSHOTS")
+        for key, detail, case in viol:
+            if chk.match_known(key) is None:
+                cnt = chk.cov["parts"].setdefault("violations_by_key", {})
+                cnt[key] = cnt.get(key, 0) + 1
+                if cnt[key] > 2 or len(chk.violations) >= 48:
+                    continue
+            chk.violation(key, detail, case)
+    big_pool.shutdown()
     chk.part("bigshots", n_shots=big)
     timing["replay_bigshots_s"] = round(time.time() - t1, 1)
     t1 = time.time()
